@@ -27,6 +27,12 @@ def library(rng):
         # nothing: re-exposure of a recovered node, an 'I'->'I' renewal): the counts must simply repeat
         "SIR+reexposure": (["S", "I", "R"], [["I", "R", r()]], [[["I", "S"], ["I", "I"], r()], [["I", "R"], ["I", "R"], r()]]),
         "SIS+renewal": (["S", "I"], [["I", "S", r()], ["I", "I", r()]], [[["I", "S"], ["I", "I"], r()]]),
+        # a status that nothing leaves spontaneously (so it is not a node of the spontaneous graph) and whose NAME is an
+        # iterable of other statuses: the co-infected class 'AB' of a two-strain model; `None` as a status name
+        "two-strain": (["S", "A", "B", "AB"], [["A", "S", r()], ["B", "S", r()]],
+                       [[["A", "S"], ["A", "A"], r()], [["B", "S"], ["B", "B"], r()], [["A", "B"], ["A", "AB"], r()], [["B", "A"], ["B", "AB"], r()]]),
+        "two-strain-induced-only": (["S", "A", "B", "AB"], [["A", "B", r()]],
+                                    [[["AB", "S"], ["AB", "A"], r()], [["A", "S"], ["A", "A"], r()]]),
     }
     return lib
 
